@@ -798,7 +798,7 @@ def correspond(ctx):
     for v in range(6):
         items.append(make_item(4000 + v, TEMPLATES.index(s_symmap), 2 if v < 4 else (1 + v % 2 * 2), variant=v))
     n_directed = len(items)
-    n = ctx.scale(20, 390)
+    n = ctx.scale(14, 390)
     for i in range(n):
         t = i % len(TEMPLATES)
         depth = [1, 2, 2, 0, 2, 1, 3][i % 7]
